@@ -51,6 +51,11 @@ class G(object):
       return 'xs3[%s:%s]' % (self.T('0'), self.T('2'))
     if r < 0.88:
       return 'o.bump(%s)' % self.opnd()
+    if r < 0.905:
+      form = self.r.choice(["{{**{{'k': {0}}}, 'j': {1}}}", "{{'j': {0}, **{{'k': {1}}}}}", "{{**{{'k': {0}}}, **{{'j': {1}}}}}",
+                            "dict(**{{'k': {0}}}, j={1})", "{{{0}, {1}}}", "[*[{0}], {1}]", "({0}, *({1},))",
+                            "{{'k': [{0}, {{'j': {1}}}]}}"])
+      return form.format(self.T(), self.T())
     if r < 0.92:
       return '%s < %s' % (self.opnd(), self.opnd())
     if r < 0.95 and self.lazy:
